@@ -253,6 +253,37 @@ func main() {
 			s.emit(o)
 		}
 	}
+	// several coalescing windows after a torn flush: request -> timer -> request -> timer -> request, windows with
+	// 0, 1 and 2 requests; everything after the torn flush must be refused with zero bytes, in every window
+	{
+		layouts := [][][]int{
+			{{0, 1}, {2}, {3}, {4}, {5}},
+			{{0, 1}, {}, {2, 3}, {}, {4, 5}},
+			{{0}, {1, 2}, {3, 4}, {5}},
+			{{0, 1, 2}, {3}, {}, {}, {4}, {5}},
+		}
+		pads := []int{1, -1, 4, 0, 2, 3}
+		for li, rounds := range layouts {
+			first := 0
+			fr := newScen("x", true, true).withFrames(pads...).frames
+			for _, t := range rounds[0] {
+				first += len(fr[t])
+			}
+			step := 3
+			if sc > 1 {
+				step = 1
+			}
+			for off := 0; off <= first; off += step {
+				s := newScen("coal-manual-windows", true, (off+li)%2 == 0).withFrames(pads...)
+				s.faults = []fault{{off: int64(off), kind: fkErr, code: 15}}
+				if off%4 == 3 {
+					s.faults[0].kind = fkSticky
+				}
+				s.runCoalManual(rounds, -1)
+				s.emit(o)
+			}
+		}
+	}
 	for i := 0; i < 144*sc; i++ {
 		k := 1 + i%16
 		s := newScen("coal-manual-random", true, r.Bool()).withFrames(randPads(r, k)...)
